@@ -712,7 +712,8 @@ class Network:
             async with atimeout(timeout):
                 _, response = await future
         except TimeoutError as exc:
-            future.set_exception(exc)
+            if not future.done():
+                future.set_exception(exc)
             raise
 
         return response
@@ -752,7 +753,8 @@ class Network:
             async with atimeout(timeout):
                 _, response = await future
         except TimeoutError as exc:
-            future.set_exception(exc)
+            if not future.done():
+                future.set_exception(exc)
             raise
 
         return response
